@@ -148,6 +148,7 @@ impl Group for C07 {
             0 => 1 << (12 + rng.below(4)),
             1 => 1 << pick(rng, &[21, 22, 13, 15]),
             2 if rng.chance(1, 3) => 1 << BIT_PERMISSIVE,
+            3 => 1 << BIT_NEAR_MISS,
             _ => 0,
         };
         let outbound = rng.chance(1, 2);
@@ -184,9 +185,15 @@ impl Group for C07 {
         let base_w: u128 = if ctype == 3 { 1124 } else { 724 };
         let f0 = fee_for_rate(1000 + rng.below(2000) as u128, base_w, false) as u64;
         let (h0, c0) = if outbound { (value - f0, 0) } else { (0, value - f0) };
-        ops.push(Commit { n: 0, feerate: 0, to_holder: h0, to_cp: c0, offered: vec![], received: vec![] }.cp_line(0));
-        ops.push(Commit { n: 0, feerate: 0, to_holder: h0, to_cp: c0, offered: vec![], received: vec![] }.hold_line(true));
-        ops.push("revoke 0".into());
+        // usually both sides' commitment 0; sometimes only one of them exists when the close is requested
+        let skip = rng.below(16);
+        if skip != 0 {
+            ops.push(Commit { n: 0, feerate: 0, to_holder: h0, to_cp: c0, offered: vec![], received: vec![] }.cp_line(0));
+        }
+        if skip != 1 {
+            ops.push(Commit { n: 0, feerate: 0, to_holder: h0, to_cp: c0, offered: vec![], received: vec![] }.hold_line(true));
+            ops.push("revoke 0".into());
+        }
         // commitment 1: balances A (holder) / B (counterparty); the two sides' views differ by d
         let f1 = f0 + rng.below(500);
         let a = match rng.below(8) {
@@ -296,6 +303,8 @@ impl Group for C07 {
                 1 => cv = 0,
                 2 => hv = hv.saturating_add(value), // outputs above the channel value
                 3 => cv = u64::MAX - hv.min(5),     // sum overflow candidates
+                // a small holder output (at / below / just above the dust limit, a few thousand sat)
+                4 => hv = pick(rng, &[1, 353, 354, 355, 1000, 3540, 3541]),
                 _ => {}
             }
             let phase1 = rng.chance(1, 2);
